@@ -11,5 +11,9 @@ if rest and rest[0].startswith('setup='):
 args=[int(x) if x.lstrip('-').isdigit() else (x=='True') for x in rest]
 c = Case('t',pkg,name,args)
 t=time.time()
-r = checklib._run_case((ssa,c,60000,0,setup))
+try:
+    r = checklib._run_case((ssa,c,60000,0,setup))
+except Exception as e:
+    import traceback
+    print('ENGINE ERROR', type(e).__name__, str(e)[:300]); print(''.join(traceback.format_exc().splitlines(True)[-6:])); sys.exit(1)
 print(round(time.time()-t,2), 'paths',r['paths'], r['status'], r['violations'][:3], r['unsupported'][:3], r['stats'], r['labels'])
